@@ -1,12 +1,22 @@
 /-
-  The schema recorded by `SchemaWriter` (`serialize_with_schema`): one row per `write` (inserted
-  before the rows of what it writes, hence pre-order), one per non-empty padding, one per
-  `write_bytes`. Field names are abstracted to the *depth* of the dotted path (padding rows, whose
-  name is the bare `PADDING`, have depth 0): offsets, sizes, alignments and nesting are what the
-  property speaks about.
+  The schema recorded by `SchemaWriter` (`serialize_with_schema`), as a forest: one node per
+  `write` (whose children are what the written value records), one per non-empty padding, one per
+  `write_bytes`. The recorded `Schema` is the pre-order traversal of the forest (`write` inserts
+  its row *before* the rows of what it writes). Field names are abstracted to the depth of the
+  dotted path (padding rows, whose name is the bare `PADDING`, get depth 0).
 -/
 import EpsModel.Header
 namespace Eps
+
+/-- A node of the schema: offset, size, recorded alignment, whether it is a padding row, children. -/
+inductive Tree where
+  | node (off size align : Nat) (isPad : Bool) (kids : List Tree)
+
+def Tree.off : Tree → Nat | .node o _ _ _ _ => o
+def Tree.size : Tree → Nat | .node _ s _ _ _ => s
+def Tree.align : Tree → Nat | .node _ _ a _ _ => a
+def Tree.isPad : Tree → Bool | .node _ _ _ p _ => p
+def Tree.kids : Tree → List Tree | .node _ _ _ _ k => k
 
 structure Row where
   depth : Nat
@@ -15,75 +25,88 @@ structure Row where
   align : Nat
   deriving Repr, DecidableEq
 
-/-- `SchemaWriter::align` for unit `u` at position `pos`. -/
-def padRows (pos u : Nat) : List Row :=
-  if pad pos u != 0 then [⟨0, pos, pad pos u, 1⟩] else []
-
-/-- `align` + `write_bytes` of `size` bytes with unit `u`, inside a value at path depth `d`. -/
-def zeroRows (d pos size u : Nat) : List Row :=
-  padRows pos u ++ [⟨d + 1, pos + pad pos u, size, u⟩]
-
 mutual
-/-- Rows recorded while `_serialize_inner` runs for `v : T` at path depth `d`, position `pos`. -/
-def Ty.rows : Ty → Val → Nat → Nat → List Row
-  | .string, .str b, d, pos => ⟨d + 1, pos, 8, 0⟩ :: zeroRows d (pos + 8) b.length 1
-  | .boxStr, .str b, d, pos => ⟨d + 1, pos, 8, 0⟩ :: zeroRows d (pos + 8) b.length 1
-  | .vec t, .seq vs, d, pos => Ty.rowsSeq t vs d pos
-  | .boxSlice t, .seq vs, d, pos => Ty.rowsSeq t vs d pos
-  | .sliceRef t, .seq vs, d, pos => Ty.rowsSeq t vs d pos
-  | .array t _, .seq vs, d, pos =>
-      if t.isZC then zeroRows d pos (Ty.toMemList t vs).length t.maxSizeOf
-      else Ty.rowsList t vs d pos
-  | .tuple t _, .seq vs, d, pos => zeroRows d pos (Ty.toMemList t vs).length t.maxSizeOf
-  | .option _, .variant 0 [], d, pos => [⟨d + 1, pos, 1, 0⟩]
-  | .option t, .variant 1 [v], d, pos => ⟨d + 1, pos, 1, 0⟩ :: Ty.rowsW t v d (pos + 1)
-  | .bound _, .variant 0 [], d, pos => [⟨d + 1, pos, 1, 0⟩]
-  | .bound t, .variant 1 [v], d, pos => ⟨d + 1, pos, 1, 0⟩ :: Ty.rowsW t v d (pos + 1)
-  | .bound t, .variant 2 [v], d, pos => ⟨d + 1, pos, 1, 0⟩ :: Ty.rowsW t v d (pos + 1)
-  | .controlFlow b _, .variant 0 [v], d, pos => ⟨d + 1, pos, 1, 0⟩ :: Ty.rowsW b v d (pos + 1)
-  | .controlFlow _ c, .variant 1 [v], d, pos => ⟨d + 1, pos, 1, 0⟩ :: Ty.rowsW c v d (pos + 1)
-  | .range .range t, .record [a, b], d, pos =>
-      Ty.rowsW t a d pos ++ Ty.rowsW t b d (pos + (t.enc a pos).length)
-  | .range .incl t, .record [a, b], d, pos =>
-      let p2 := pos + (t.enc a pos).length
-      let p3 := p2 + (t.enc b p2).length
-      Ty.rowsW t a d pos ++ Ty.rowsW t b d p2 ++ [⟨d + 1, p3, 1, 0⟩]
-  | .range .from t, .record [a], d, pos => Ty.rowsW t a d pos
-  | .range .to t, .record [a], d, pos => Ty.rowsW t a d pos
-  | .range .toIncl t, .record [a], d, pos => Ty.rowsW t a d pos
-  | .adt m vs, .record fs, d, pos =>
-      if m.zero then zeroRows d pos (Ty.sizeOf (.adt m vs)) (Ty.maxSizeOf (.adt m vs))
-      else match vs with
-        | .cons _ fds .nil => Fields.rows fds fs d pos
-        | _ => []
-  | .adt m vs, .variant i fs, d, pos =>
-      if m.zero then zeroRows d pos (Ty.sizeOf (.adt m vs)) (Ty.maxSizeOf (.adt m vs))
-      else ⟨d + 1, pos, 8, 0⟩ :: Variants.rows vs i fs d (pos + 8)
-  | _, _, _, _ => []
-/-- `backend.write(name, v)`: the row of the field, then what the value records one level deeper. -/
-def Ty.rowsW : Ty → Val → Nat → Nat → List Row
-  | t, v, d, pos => ⟨d + 1, pos, (t.enc v pos).length, 0⟩ :: t.rows v (d + 1) pos
-def Ty.rowsSeq : Ty → List Val → Nat → Nat → List Row
-  | t, vs, d, pos =>
-      if t.isZC then ⟨d + 1, pos, 8, 0⟩ :: zeroRows d (pos + 8) (Ty.toMemList t vs).length t.maxSizeOf
-      else ⟨d + 1, pos, 8, 0⟩ :: Ty.rowsList t vs d (pos + 8)
-def Ty.rowsList : Ty → List Val → Nat → Nat → List Row
-  | _, [], _, _ => []
-  | t, v :: vs, d, pos => Ty.rowsW t v d pos ++ Ty.rowsList t vs d (pos + (t.enc v pos).length)
-def Fields.rows : Fields → List Val → Nat → Nat → List Row
-  | .cons _ _ t r, v :: vs, d, pos => Ty.rowsW t v d pos ++ r.rows vs d (pos + (t.enc v pos).length)
-  | _, _, _, _ => []
-def Variants.rows : Variants → Nat → List Val → Nat → Nat → List Row
-  | .nil, _, _, _, _ => []
-  | .cons _ fs _, 0, vals, d, pos => fs.rows vals d pos
-  | .cons _ _ r, i+1, vals, d, pos => r.rows i vals d pos
+/-- pre-order traversal: the rows of the recorded schema -/
+def Tree.rows : Tree → Nat → List Row
+  | .node o s a p kids, d => ⟨if p then 0 else d, o, s, a⟩ :: Tree.rowsList kids (d + 1)
+def Tree.rowsList : List Tree → Nat → List Row
+  | [], _ => []
+  | t :: ts, d => t.rows d ++ Tree.rowsList ts d
 end
 
-/-- The whole schema of `serialize_with_schema`: header rows, then `ROOT`. -/
-def Ty.schema (t : Ty) (name : B) (v : Val) : List Row :=
+/-- `SchemaWriter::align` for unit `u` at position `pos`. -/
+def padTrees (pos u : Nat) : List Tree :=
+  if pad pos u != 0 then [.node pos (pad pos u) 1 true []] else []
+
+/-- `align` + `write_bytes` of `size` bytes with unit `u`. -/
+def zeroTrees (pos size u : Nat) : List Tree :=
+  padTrees pos u ++ [.node (pos + pad pos u) size u false []]
+
+mutual
+/-- Nodes recorded while `_serialize_inner` runs for `v : T` at position `pos` (siblings). -/
+def Ty.trees : Ty → Val → Nat → List Tree
+  | .string, .str b, pos => .node pos 8 0 false [] :: zeroTrees (pos + 8) b.length 1
+  | .boxStr, .str b, pos => .node pos 8 0 false [] :: zeroTrees (pos + 8) b.length 1
+  | .vec t, .seq vs, pos => Ty.treesSeq t vs pos
+  | .boxSlice t, .seq vs, pos => Ty.treesSeq t vs pos
+  | .sliceRef t, .seq vs, pos => Ty.treesSeq t vs pos
+  | .array t _, .seq vs, pos =>
+      if t.isZC then zeroTrees pos (Ty.toMemList t vs).length t.maxSizeOf
+      else Ty.treesList t vs pos
+  | .tuple t _, .seq vs, pos => zeroTrees pos (Ty.toMemList t vs).length t.maxSizeOf
+  | .option _, .variant 0 [], pos => [.node pos 1 0 false []]
+  | .option t, .variant 1 [v], pos => [.node pos 1 0 false [], Ty.treeW t v (pos + 1)]
+  | .bound _, .variant 0 [], pos => [.node pos 1 0 false []]
+  | .bound t, .variant 1 [v], pos => [.node pos 1 0 false [], Ty.treeW t v (pos + 1)]
+  | .bound t, .variant 2 [v], pos => [.node pos 1 0 false [], Ty.treeW t v (pos + 1)]
+  | .controlFlow b _, .variant 0 [v], pos => [.node pos 1 0 false [], Ty.treeW b v (pos + 1)]
+  | .controlFlow _ c, .variant 1 [v], pos => [.node pos 1 0 false [], Ty.treeW c v (pos + 1)]
+  | .range .range t, .record [a, b], pos =>
+      [Ty.treeW t a pos, Ty.treeW t b (pos + (t.enc a pos).length)]
+  | .range .incl t, .record [a, b], pos =>
+      let p2 := pos + (t.enc a pos).length
+      let p3 := p2 + (t.enc b p2).length
+      [Ty.treeW t a pos, Ty.treeW t b p2, .node p3 1 0 false []]
+  | .range .from t, .record [a], pos => [Ty.treeW t a pos]
+  | .range .to t, .record [a], pos => [Ty.treeW t a pos]
+  | .range .toIncl t, .record [a], pos => [Ty.treeW t a pos]
+  | .adt m vs, .record fs, pos =>
+      if m.zero then zeroTrees pos (Ty.toMem (.adt m vs) (.record fs)).length (Ty.maxSizeOf (.adt m vs))
+      else match vs with
+        | .cons _ fds .nil => Fields.trees fds fs pos
+        | _ => []
+  | .adt m vs, .variant i fs, pos =>
+      if m.zero then zeroTrees pos (Ty.toMem (.adt m vs) (.variant i fs)).length (Ty.maxSizeOf (.adt m vs))
+      else .node pos 8 0 false [] :: Variants.trees vs i fs (pos + 8)
+  | _, _, _ => []
+/-- `backend.write(name, v)`: the node of the field, whose children are what the value records. -/
+def Ty.treeW : Ty → Val → Nat → Tree
+  | t, v, pos => .node pos (t.enc v pos).length 0 false (t.trees v pos)
+def Ty.treesSeq : Ty → List Val → Nat → List Tree
+  | t, vs, pos =>
+      if t.isZC then .node pos 8 0 false [] :: zeroTrees (pos + 8) (Ty.toMemList t vs).length t.maxSizeOf
+      else .node pos 8 0 false [] :: Ty.treesList t vs (pos + 8)
+def Ty.treesList : Ty → List Val → Nat → List Tree
+  | _, [], _ => []
+  | t, v :: vs, pos => Ty.treeW t v pos :: Ty.treesList t vs (pos + (t.enc v pos).length)
+def Fields.trees : Fields → List Val → Nat → List Tree
+  | .cons _ _ t r, v :: vs, pos => Ty.treeW t v pos :: r.trees vs (pos + (t.enc v pos).length)
+  | _, _, _ => []
+def Variants.trees : Variants → Nat → List Val → Nat → List Tree
+  | .nil, _, _, _ => []
+  | .cons _ fs _, 0, vals, pos => fs.trees vals pos
+  | .cons _ _ r, i+1, vals, pos => r.trees i vals pos
+end
+
+/-- The header fields (each a leaf `write`, the type name a string) and `ROOT`. -/
+def Ty.schemaTrees (t : Ty) (name : B) (v : Val) : List Tree :=
   let hl := 37 + name.length
-  [⟨1, 0, 8, 0⟩, ⟨1, 8, 2, 0⟩, ⟨1, 10, 2, 0⟩, ⟨1, 12, 1, 0⟩, ⟨1, 13, 8, 0⟩, ⟨1, 21, 8, 0⟩,
-   ⟨1, 29, 8 + name.length, 0⟩, ⟨2, 29, 8, 0⟩, ⟨2, 37, name.length, 1⟩] ++
-  Ty.rowsW t v 0 hl
+  [.node 0 8 0 false [], .node 8 2 0 false [], .node 10 2 0 false [], .node 12 1 0 false [],
+   .node 13 8 0 false [], .node 21 8 0 false [],
+   .node 29 (8 + name.length) 0 false [.node 29 8 0 false [], .node 37 name.length 1 false []],
+   Ty.treeW t v hl]
+
+/-- The recorded schema: pre-order traversal, top-level fields at depth 1. -/
+def Ty.schema (t : Ty) (name : B) (v : Val) : List Row := Tree.rowsList (t.schemaTrees name v) 1
 
 end Eps
